@@ -2383,3 +2383,39 @@ func c09r16(rc *core.RC) {
 		rc.Unknown("decoder/stream-byte-decisions", token.NoPos, "found %d if-decisions on the current stream byte (confirmed: 4)", n)
 	}
 }
+
+// ---- C09.R17 the two decoders of a TextUnmarshaler held by an interface prepare the text alike ----
+
+// decodeTextUnmarshaler (buffer) and decodeStreamTextUnmarshaler (stream) serve an interface that holds a
+// TextUnmarshaler. Both skip white space in front of the value, delimit it with skipValue and hand the method the
+// text of the string: both call unquoteBytes. Without it the stream twin passes the literal with its quotes.
+func c09r17(rc *core.RC) {
+	p := rc.P
+	n := 0
+	calls := func(fd *ast.FuncDecl, suffix string) bool {
+		info := p.Info(fd)
+		found := false
+		ast.Inspect(fd.Body, func(m ast.Node) bool {
+			if c, ok := m.(*ast.CallExpr); ok && strings.HasSuffix(core.CalleeName(info, c), suffix) {
+				found = true
+			}
+			return true
+		})
+		return found
+	}
+	for _, name := range []string{"decodeTextUnmarshaler", "decodeStreamTextUnmarshaler"} {
+		fd := p.Func("decoder", name)
+		if fd == nil || fd.Body == nil {
+			rc.Unknown("decoder."+name, token.NoPos, "function not found")
+			continue
+		}
+		rc.Touch("decoder." + name)
+		for _, need := range []struct{ suffix, what string }{{"unquoteBytes", "unquotes the literal"}, {"kipWhiteSpace", "skips white space in front of the value"}, {"kipValue", "delimits the value with skipValue"}} {
+			n++
+			rc.Check(calls(fd, need.suffix), fmt.Sprintf("decoder.%s/%s", name, strings.ReplaceAll(need.what, " ", "-")), fd.Pos(), "%s %s before it calls UnmarshalText, like its twin of the other mode", name, need.what)
+		}
+	}
+	if n < 6 {
+		rc.Unknown("decoder/text-unmarshaler-twins", token.NoPos, "found %d of the six obligations", n)
+	}
+}
